@@ -171,10 +171,25 @@ def main():
             with open(other, "wb") as fd:
                 fd.write(b"an unrelated file that must survive")
             os.symlink(os.path.basename(other), part)
+    def do_edit():
+        if spec.get("route") == "interactive":
+            # the interactive editor: choose property 1 (comment), type the value, DONE
+            import builtins as _bi
+            from harness.common import quiet
+            from torrentfile import interactive
+            answers = iter(["1", spec["req"]["comment"], "done"])
+            old_input, _bi.input = _bi.input, (lambda *_a: next(answers))
+            try:
+                with quiet():
+                    interactive.InteractiveEditor(spec["metafile"]).edit_props()
+            finally:
+                _bi.input = old_input
+        else:
+            impl.edit(spec["metafile"], spec["req"])
     raised = None
     with effects.traced(on_event=on_event) as tr:
         try:
-            impl.edit(spec["metafile"], spec["req"])
+            do_edit()
         except BaseException as exc:  # noqa
             raised = type(exc).__name__
     sys.__stdout__.write("\nOBS " + json.dumps({"raised": raised,
